@@ -3,7 +3,7 @@
    (2) the scalar-pair, mixed and flat argument forms of tenalg_utils._validate_contraction_modes. *)
 From Coq Require Import List Arith ZArith Lia Bool.
 From TLV Require Import Base.Shape Base.PyList Base.Tensor Base.BigSum Model.Base Proofs.BaseProofs Model.Tenalg
-  Proofs.TenalgProofs Proofs.TenalgProofsSort Proofs.TenalgProofsMemory Proofs.TenalgProofsValidate Proofs.TenalgProofsNegMulti.
+  Proofs.TenalgProofs Proofs.TenalgProofsSort Proofs.TenalgProofsMulti Proofs.TenalgProofsMultiGen Proofs.TenalgProofsMultiGen2 Proofs.TenalgProofsEinsumMulti Proofs.TenalgProofsMemory Proofs.TenalgProofsValidate Proofs.TenalgProofsNegMulti.
 Import ListNotations.
 
 Lemma forall2_seq_index n : forall m p, p + m <= n ->
@@ -17,19 +17,47 @@ Qed.
 Section P.
 Context {F : Type} (Op : rops F).
 
+(* non-negative Python modes need no resolution: norm_mode leaves them alone *)
+Lemma norm_mode_nonneg order k : norm_mode order (Z.of_nat k) = Z.of_nat k.
+Proof.
+  unfold norm_mode. assert (E : (Z.of_nat k <? 0)%Z = false) by (apply Z.ltb_ge; lia). rewrite E, andb_false_r. reflexivity.
+Qed.
+Lemma norm_modes_nonneg order : forall ks, map (norm_mode order) (map Z.of_nat ks) = map Z.of_nat ks.
+Proof. induction ks as [|k ks IH]; [reflexivity|]. cbn [map]. now rewrite norm_mode_nonneg, IH. Qed.
+
+(* every list of NON-NEGATIVE modes, in range or not, distinct on the non-skipped operands: the literal Python-int routines are the
+   natural-number routines (an out-of-range mode is rejected by both) *)
+Theorem multi_mode_dot_z_nonneg (T : tensor F) (Ms : list (tensor F)) (ks : list nat) (skip : option nat) (tr : bool) :
+  let L := filter (fun x => negb (is_skip skip (snd x))) (sort_by_mode (zip3 Ms (Some ks))) in
+  NoDup (map (@t_mode F) L) ->
+  multi_mode_dot_z Op T Ms (map Z.of_nat ks) skip tr = multi_mode_dot Op T Ms (Some ks) skip tr /\
+  multi_mode_dot_e_z Op T Ms (map Z.of_nat ks) skip tr = multi_mode_dot_e Op T Ms (Some ks) skip tr.
+Proof.
+  intros L Hnd.
+  assert (HsL : lsorted (@t_mode F) L) by (unfold L; apply lsorted_filter; rewrite sort_by_mode_gsort; apply gsort_sorted).
+  split.
+  - unfold multi_mode_dot_z, multi_mode_dot. rewrite norm_modes_nonneg, zip3z_lift, sort_by_mode_lift.
+    rewrite mmd_loop_z_filter_skip, (mmd_loop_filter_skip_gen Op).
+    pose proof (filter_lift (F:=F) (fun i => negb (is_skip skip i)) (sort_by_mode (zip3 Ms (Some ks)))) as FL. cbv beta in FL. fold L in FL |- *.
+    rewrite <- (mmd_loop_z_lift Op tr L 0 T HsL Hnd) by (intros; lia). change (Z.of_nat 0) with 0%Z. f_equal. exact FL.
+  - unfold multi_mode_dot_e_z, multi_mode_dot_e. cbv zeta.
+    rewrite norm_modes_nonneg, zip3z_lift, sort_by_mode_lift.
+    rewrite mmd_e_loop_z_filter_skip, (mmd_e_loop_filter_skip Op).
+    pose proof (filter_lift (F:=F) (fun i => negb (is_skip skip i)) (sort_by_mode (zip3 Ms (Some ks)))) as FL. cbv beta in FL. fold L in FL |- *.
+    rewrite <- (mmd_e_loop_z_lift Op tr (ndim T) L (mkS [] [] (seq 0 (ndim T)) (ndim T + 1) 0) HsL Hnd) by (cbn [s_dec]; intros; lia).
+    f_equal. f_equal. exact FL.
+Qed.
+
 Theorem multi_mode_dot_default_modes (T : tensor F) (Ms : list (tensor F)) (skip : option nat) (tr : bool) :
-  length Ms <= ndim T ->
   multi_mode_dot_z Op T Ms (map Z.of_nat (seq 0 (length Ms))) skip tr = multi_mode_dot Op T Ms None skip tr /\
   multi_mode_dot_e_z Op T Ms (map Z.of_nat (seq 0 (length Ms))) skip tr = multi_mode_dot_e Op T Ms None skip tr.
 Proof.
-  intros H.
   change (multi_mode_dot Op T Ms None skip tr) with (multi_mode_dot Op T Ms (Some (seq 0 (length Ms))) skip tr).
   change (multi_mode_dot_e Op T Ms None skip tr) with (multi_mode_dot_e Op T Ms (Some (seq 0 (length Ms))) skip tr).
-  apply multi_mode_dot_z_resolved.
-  - apply forall2_seq_index. exact H.
-  - change (zip3 Ms (Some (seq 0 (length Ms)))) with (zip3 Ms None).
-    rewrite sort_by_mode_gsort, zip3_vecL. rewrite (gsort_id _ _ (vecL_sorted Ms 0)).
-    apply NoDup_map_filter, vecL_NoDup.
+  apply multi_mode_dot_z_nonneg.
+  change (zip3 Ms (Some (seq 0 (length Ms)))) with (zip3 Ms None).
+  rewrite sort_by_mode_gsort, zip3_vecL. rewrite (gsort_id _ _ (vecL_sorted Ms 0)).
+  apply NoDup_map_filter, vecL_NoDup.
 Qed.
 End P.
 
@@ -73,7 +101,6 @@ Qed.
 Lemma default_modes_nonvacuous :
   let T : tensor Z := mk [2; 3] [1; 2; 3; 4; 5; 6]%Z in let v : tensor Z := mk [2] [1; -1]%Z in
   let M : tensor Z := mk [2; 3] [1; 0; 2; 0; 1; 1]%Z in
-  length [v; M] <= ndim T /\
   multi_mode_dot_z ZR T [v; M] (map Z.of_nat (seq 0 2)) None false = Ok (mk [2] [-9; -6]%Z) /\
   multi_mode_dot ZR T [v; M] None None false = Ok (mk [2] [-9; -6]%Z) /\
   multi_mode_dot_e ZR T [v; M] None None false = Ok (mk [2] [-9; -6]%Z).
